@@ -269,7 +269,14 @@ def elem_of(e: ast.AST, roots: list[ast.AST] | None = None, root_symbol: str | N
                 return None
             env.update(b)
             for c in g.ifs:
-                if not _none_filter(subst(c, env)):
+                c2 = subst(c, env)
+                # `(name := expr) is not None`: the filter tests expr and the element may use name
+                for w in [n for n in ast.walk(c2) if isinstance(n, ast.NamedExpr)]:
+                    if not isinstance(w.target, ast.Name) or any(isinstance(n, ast.NamedExpr) for n in ast.walk(w.value)):
+                        return None
+                    env[w.target.id] = w.value
+                    c2 = _replace(c2, w, w.value)
+                if not _none_filter(c2):
                     return None
         return subst(e.elt, env)
     if isinstance(e, (ast.Constant, ast.Lambda)):
@@ -280,6 +287,36 @@ def elem_of(e: ast.AST, roots: list[ast.AST] | None = None, root_symbol: str | N
     sym = root_symbol if root_symbol is not None and not roots else f"<elem of {u(e)}>"
     roots.append(e)
     return name(sym)
+
+
+def _replace(root: ast.AST, old: ast.AST, new: ast.AST) -> ast.AST:
+    """`root` with the node `old` (by identity) replaced by `new` (in place; returns the new root)."""
+    if root is old:
+        return new
+
+    class T(ast.NodeTransformer):
+        def visit(self, n: ast.AST) -> ast.AST:
+            return new if n is old else super().visit(n)
+    return T().visit(root)
+
+
+def project_records(e: ast.AST, records: dict[str, list[str]]) -> ast.AST:
+    """`Rec(a=x, b=y).a` -> `x` for the record constructors in `records` (class name -> field order):
+    reading a field of a freshly built record is reading the argument it was built from."""
+    class T(ast.NodeTransformer):
+        def visit_Attribute(self, node: ast.Attribute) -> ast.AST:  # noqa: N802
+            self.generic_visit(node)
+            v = node.value
+            if isinstance(v, ast.Call) and not any(isinstance(a, ast.Starred) for a in v.args) \
+                    and all(k.arg is not None for k in v.keywords):
+                fields = records.get(u(v.func).split(".")[-1])
+                if fields is not None and node.attr in fields and len(v.args) <= len(fields):
+                    args = dict(zip(fields, v.args))
+                    args.update({k.arg: k.value for k in v.keywords})  # type: ignore[misc]
+                    if node.attr in args:
+                        return args[node.attr]
+            return node
+    return T().visit(copy.deepcopy(e))
 
 
 def set_elem(e: ast.AST) -> ast.AST | None:
